@@ -410,6 +410,7 @@ pub fn run_job(spec: &JobSpec, progress: &dyn Fn(u64)) -> WorkerOut {
             if out.failures.len() < 4 {
                 sc.decisions = Some(conc.decisions.clone());
                 out.failures.push(Failure {
+                    job_from: 0,
                     idx,
                     gen_class: class.clone(),
                     class: x.class,
